@@ -1,6 +1,7 @@
 use crate::eng::Tier;
 pub mod c01;
 pub mod c02;
+pub mod c05;
 pub mod c07;
 pub mod c08;
 pub mod c09;
@@ -8,11 +9,14 @@ pub mod c10;
 pub mod c11;
 pub mod c12;
 pub mod c13;
+pub mod c18;
+pub mod c19;
 
 pub fn run(prop: &str, tier: Tier, seed: u64) {
     match prop {
         "C01" => c01::run(tier, seed),
         "C02" => c02::run(tier, seed),
+        "C05" => c05::run(tier, seed),
         "C07" => c07::run(tier, seed),
         "C08" => c08::run(tier, seed),
         "C09" => c09::run(tier, seed),
@@ -20,6 +24,8 @@ pub fn run(prop: &str, tier: Tier, seed: u64) {
         "C11" => c11::run(tier, seed),
         "C12" => c12::run(tier, seed),
         "C13" => c13::run(tier, seed),
+        "C18" => c18::run(tier, seed),
+        "C19" => c19::run(tier, seed),
         _ => crate::eng::inconclusive(&format!("no E1 harness for {}", prop)),
     }
 }
